@@ -46,6 +46,19 @@ CHECKS["C08"] = dict(
          "remaining-time arithmetic",
     design="DESIGN.md section 3 C08")
 
+CHECKS["C01"] = dict(
+    technique="template extraction + abstract interpretation (constant-propagation domain, symbolic text) of the SGR writer over the whole attribute space against a reference SGR machine",
+    text="The SGR writer is a closed template program over compile-time tables: wrapper templates and seq() are folded "
+         "with symbolic text, Chunk.color_str is abstractly interpreted for every attribute set of the quantifier "
+         "(5184+ sets quick, all 59049 thorough) and each resulting token stream is judged by an independent ECMA-48 SGR "
+         "machine (state at the text = the set's truthy attributes, default state at the end, only SGR tokens); runs "
+         "compose because each starts and ends in the default state; FmtStr.__str__/Chunk.__str__ join every run in order "
+         "with the empty separator; the memoised terminal string cannot go stale (C13's rules for _unicode/chunks). For "
+         "ESC-free text this decides the whole statement at the level of the extracted writer model.",
+    note="trusted: ECMA-48 SGR subset as encoded in sa/sgr.py; the constant folder / decision-list evaluator of sa/ "
+         "(fail-closed outside its pure subset); str concatenation semantics",
+    design="DESIGN.md section 3 C01", partial=False)
+
 NOT_APPLICABLE = [
     ("C06", "slicing/normalisation is integer arithmetic over run layouts; no structural clause is a necessary condition visible in the code shape"),
     ("C09", "five-way overlap arithmetic across runs; a sound static decision needs inductive integer invariants (solver family)"),
